@@ -224,6 +224,11 @@ def _propagate_locals(fn):
                         ok = False
                     elif rid in lv:
                         pass
+                    elif rid not in decls and writes.get(rid, 0) >= 1 and wofs.get(rid) and min(wofs[rid]) >= 0 and max(wofs[rid]) < _off(stmt) \
+                            and writes.get(rid, 0) == len(wofs[rid]):
+                        # a file-scope object written in this function only BEFORE the definition (neigh = malloc(..) ahead of the loop
+                        # in which  row = neigh + 9*n  is defined): at every use after the definition it still holds that value
+                        pass
                     elif writes.get(rid, 0) > (1 if rid in decls else 0):
                         ok = False          # operand assigned more than once / modified: not provably stable
                     elif rid in decls and writes.get(rid, 0) == 1 and not decls[rid].get("init"):
@@ -711,6 +716,30 @@ def _induction_pointers(fn):
     return done
 
 
+def _fold_pointer_subscripts(root):
+    """AST normalisation: (arr + off)[i]  ==  arr[off + i]   (what a propagated row pointer leaves behind), so every rule sees a plain
+    subscript of the array itself."""
+    n_ = 0
+    for x in _jwalk(root):
+        if x.get("kind") != "ArraySubscriptExpr" or len(x.get("inner") or []) != 2:
+            continue
+        b = _strip_j(x["inner"][0])
+        if b.get("kind") == "BinaryOperator" and b.get("opcode") == "+" and len(b.get("inner") or []) == 2:
+            l, r = b["inner"]
+            ls, rs = _strip_j(l), _strip_j(r)
+            ptr = off = None
+            if ls.get("kind") == "DeclRefExpr" and "*" in ls.get("type", {}).get("qualType", ""):
+                ptr, off = l, r
+            elif rs.get("kind") == "DeclRefExpr" and "*" in rs.get("type", {}).get("qualType", ""):
+                ptr, off = r, l
+            if ptr is not None:
+                idx = x["inner"][1]
+                x["inner"] = [ptr, {"kind": "BinaryOperator", "opcode": "+", "type": {"qualType": "int"}, "valueCategory": "prvalue",
+                                    "range": x.get("range", {}), "inner": [off, idx]}]
+                n_ += 1
+    return n_
+
+
 def _number(roots):
     """Execution-order positions: `_pb` on entry, `_pe` on exit of every node, in one pre/post-order numbering of the normalised tree.
     Every 'lies between' test of the analyses uses these, never source offsets (an inlined helper body has the offsets of its definition)."""
@@ -779,6 +808,8 @@ class CFile:
             for n in tops:
                 if n.get("kind") == "FunctionDecl":
                     self.norm_propagated += _propagate_locals(n)
+        for r in roots:
+            self.norm_propagated += _fold_pointer_subscripts(r)
         _number(roots)
         self.roots = roots
         self.funcs = {}
